@@ -3,7 +3,7 @@
    the SafeDurationCast statement. *)
 From BS Require Import Base ChronoSpec ChronoModel ChronoArith ChronoDecimal ChronoSweep ChronoCalendar ChronoYear
   ChronoSafe ChronoSafeAdd ChronoText ChronoTp ChronoTpParse ChronoTpRt ChronoTs ChronoRefute
-  ChronoDur ChronoDurPrint ChronoDurParse ChronoDurRt ChronoClassify ChronoClassify2 ChronoClassify3 ChronoDurClassify.
+  ChronoDur ChronoDurPrint ChronoDurParse ChronoDurRt ChronoClassify ChronoClassify2 ChronoClassify3 ChronoDurClassify ChronoReject ChronoTotal ChronoDurReject.
 From Coq Require Import Lia.
 Local Open Scope Z_scope.
 
@@ -215,3 +215,16 @@ Proof.
   split; [split; [|exact w_K42] | exact w_K49].
   apply space_not_grammar. unfold text_K42. do 6 right. left. reflexivity.
 Qed.
+
+(* ------------------------------------------------------------------ C15, time-point texts outside the grammar *)
+
+Lemma c15_tp_reject_grammar P R s : ~ tp_grammar s -> ~ tp_lenient s -> tp_parse P R s = Err InvalidArgument.
+Proof. intros _ H. apply tp_reject. exact H. Qed.
+
+Lemma c15_K41_lenient : tp_lenient text_K41 /\ ~ tp_grammar text_K41.
+Proof. split; [exact K41_lenient | exact (proj1 c15_tp_classify_refuted)]. Qed.
+
+(* ------------------------------------------------------------------ C15, duration texts outside the grammar *)
+
+Lemma c15_K42_loose : dur_loose text_K42 /\ ~ dur_grammar text_K42.
+Proof. split; [exact K42_loose | exact (proj1 (proj1 c15_dur_classify_refuted))]. Qed.
